@@ -4,7 +4,7 @@
  * child that builds the zones through the C++ platform API (or loads an XML file), seals, and prints
  *    R <src> <dst> <latency %.17g> <n> <link>...        route_to() answer for an ordered host pair
  *    X <src> <dst> <exception text>                      route_to() threw
- *    XC <src> <dst> <sig:N|exit:N|spin>                  a 'QF' query (run in a forked copy of the child) killed its process
+ *    XC <src> <dst> sig:N                                a 'QF' query died on that signal (caught, the child goes on)
  *    LR <zone> <src> <dst> <gw_src|-> <gw_dst|-> <latency> <n> <link>...   get_local_route() of one zone (private API)
  *    LX <zone> <src> <dst> <exception text>
  * The parent prints  BEGIN <id>  before and  END <id> <ok|exit:N|sig:N|spin|wall> cpu=<s>  after each child.
@@ -20,6 +20,7 @@
 #include "src/kernel/resource/NetworkModel.hpp"
 #include "src/kernel/resource/StandardLinkImpl.hpp"
 
+#include <csetjmp>
 #include <csignal>
 #include <cstdio>
 #include <cstring>
@@ -58,6 +59,33 @@ static void on_prof(int)
   if (write(1, buf, n) < 0) { /* nothing to do */
   }
   _exit(3);
+}
+
+static sigjmp_buf g_jmp;
+static volatile sig_atomic_t g_armed = 0;
+
+static void on_fatal(int sig)
+{
+  if (g_armed) {
+    g_armed = 0;
+    siglongjmp(g_jmp, sig);
+  }
+  signal(sig, SIG_DFL);
+  raise(sig);
+}
+
+static void arm_fatal_handlers()
+{
+  static bool done = false;
+  if (done)
+    return;
+  done = true;
+  struct sigaction sa;
+  memset(&sa, 0, sizeof sa);
+  sa.sa_handler = on_fatal;
+  sa.sa_flags   = SA_NODEFER;
+  for (int sig : {SIGSEGV, SIGABRT, SIGBUS, SIGFPE})
+    sigaction(sig, &sa, nullptr);
 }
 
 static void set_query(const char* kind, const std::string& a, const std::string& b, const std::string& c = "")
@@ -340,27 +368,17 @@ static int child(const std::vector<std::string>& lines, double cpu_budget, int a
           for (auto* y : hosts)
             query_route(x, y);
       }
-    } else if (t[0] == "QF") { // QF src dst: the query runs in a forked copy of this child, so that a crash only loses this answer
-      fflush(stdout);
-      pid_t sub = fork();
-      if (sub == 0) {
-        struct itimerval it2;
-        memset(&it2, 0, sizeof it2);
-        it2.it_value.tv_sec  = static_cast<long>(cpu_budget);
-        it2.it_value.tv_usec = static_cast<long>((cpu_budget - static_cast<long>(cpu_budget)) * 1e6);
-        setitimer(ITIMER_PROF, &it2, nullptr);
+    } else if (t[0] == "QF") { // QF src dst: a query that may die (known deviations): SIGSEGV/SIGABRT/SIGBUS/SIGFPE are caught
+                               // and reported as XC, then the child goes on (a fork per query costs 0.2 s; the queries that
+                               // are judged strictly are all asked before the first QF)
+      arm_fatal_handlers();
+      g_armed = 1;
+      int sig = sigsetjmp(g_jmp, 1);
+      if (sig == 0)
         query_route(sg4::Host::by_name(t[1]), sg4::Host::by_name(t[2]));
-        fflush(stdout);
-        _exit(0);
-      }
-      int st = 0;
-      waitpid(sub, &st, 0);
-      if (WIFSIGNALED(st))
-        printf("\nXC %s %s sig:%d\n", t[1].c_str(), t[2].c_str(), WTERMSIG(st));
-      else if (WEXITSTATUS(st) == 3)
-        printf("\nXC %s %s spin\n", t[1].c_str(), t[2].c_str());
-      else if (WEXITSTATUS(st) != 0)
-        printf("\nXC %s %s exit:%d\n", t[1].c_str(), t[2].c_str(), WEXITSTATUS(st));
+      else
+        printf("\nXC %s %s sig:%d\n", t[1].c_str(), t[2].c_str(), sig);
+      g_armed = 0;
     } else if (t[0] == "Q2") { // the same pair twice in a row and in both directions (cache hit vs miss)
       auto* x = sg4::Host::by_name(t[1]);
       auto* y = sg4::Host::by_name(t[2]);
